@@ -94,6 +94,10 @@ func (s *service) signAndSend(r *state.MPTRoot) error {
 	incRoot := s.getIncompleteRoot(r.Index, myIndex)
 	incRoot.Lock()
 	defer incRoot.Unlock()
+	// The entry could have been created by a vote received before the block
+	// designating validators for this height was processed, refresh the list.
+	incRoot.svList = s.GetStateValidators(r.Index)
+	incRoot.myIndex = int(myIndex)
 	incRoot.root = r
 	incRoot.addSignature(acc.PublicKey(), sig)
 	incRoot.reverify(s.Network)
